@@ -184,3 +184,49 @@ def const_default(ct: int, cb: bool, ci: int, cf: int, cs: int, t: int, b: bool,
     if same:
         return isinstance(r, ConstProperty) and r.default is not None and _denotes(r.default.python_code) == const
     return isinstance(r, PropertyError)
+
+
+# ------------------------------------------------------------------------------------------------ default next to a $ref
+from openapi_python_client import schema as oai  # noqa: E402
+from openapi_python_client.config import Config, ConfigFile, MetaType  # noqa: E402
+from openapi_python_client.parser.properties import Schemas, build_schemas, property_from_data  # noqa: E402
+from openapi_python_client.parser.properties.schemas import parse_reference_path  # noqa: E402
+
+_CFG = Config.from_sources(ConfigFile(post_hooks=[]), MetaType.NONE, Path("doc.json"), "utf-8", True, None)
+_TARGETS = ("IntE", "StrE", "Flag", "Count", "Ratio", "Day")
+_COMPONENTS = {
+    "IntE": {"type": "integer", "enum": [0, 1, 2]},
+    "StrE": {"type": "string", "enum": ["", "a", "0"]},
+    "Flag": {"type": "boolean"},
+    "Count": {"type": "integer"},
+    "Ratio": {"type": "number"},
+    "Day": {"type": "string", "format": "date"},
+}
+_SCHEMAS = build_schemas(components={k: oai.Schema.model_validate(v) for k, v in _COMPONENTS.items()}, schemas=Schemas(), config=_CFG)
+assert not _SCHEMAS.errors
+
+
+def ref_default(target: int, wrapper: int, t: int, b: bool, i: int, f: int, s: int) -> bool:
+    """
+    A default written next to a single reference (`allOf|oneOf|anyOf: [$ref], default: V`) is converted exactly as the
+    referenced schema itself would convert V — accepted with the same typed value, or rejected — whatever V is,
+    including the falsy values 0, false, "" and 0.0.
+    pre: 0 <= target < 6 and 0 <= wrapper < 3
+    pre: 0 <= t <= 6 and 0 <= i < 4 and 0 <= f < 7 and 0 <= s < 24
+    post: _
+    """
+    name = _pick(_TARGETS, target)
+    v = _json_value(t, b, i, f, s)
+    data = {_pick(("allOf", "oneOf", "anyOf"), wrapper): [{"$ref": f"#/components/schemas/{name}"}]}
+    if v is not None:
+        data["default"] = v
+    existing = _SCHEMAS.classes_by_reference[parse_reference_path(f"#/components/schemas/{name}")]
+    want = existing.convert_value(v)
+    prop, _ = property_from_data(name="p", required=False, data=oai.Schema.model_validate(data), schemas=_SCHEMAS, parent_name="Parent", config=_CFG)
+    if isinstance(want, PropertyError):
+        return isinstance(prop, PropertyError)
+    if isinstance(prop, PropertyError):
+        return False
+    if want is None:
+        return prop.default is None
+    return prop.default is not None and prop.default.python_code == want.python_code
